@@ -885,6 +885,9 @@ class ExprMixin:
         # symbolic-length source: pointwise map, no filter, pure element expr
         seq = it
         if g.ifs:
+            exact = self.filtered_seq_exact(n, g, seq, env, mutable)
+            if exact is not None:
+                return exact
             # over-approximation: some sequence of unknown length <= len(source) whose
             # elements have the type of the element expression (content unknown)
             i0 = z3.Int(self.fresh_name("i!compf"))
@@ -908,6 +911,46 @@ class ExprMixin:
         elem = self.infer_elem(val)
         arrs = [z3.Lambda([i], t) for t in terms]
         return VSeq(elem, arrs, seq.length, mutable)
+
+    def filtered_seq_exact(self, n, g, seq, env, mutable):
+        """[elt(x) for x in seq if cond(x)] over a symbolic sequence, exactly: a fresh sequence r together with a strictly
+        increasing index map idx: positions of r -> indices of seq that satisfy cond, onto those indices (inverse pos).
+        None when the element expression is outside what for_arbitrary_index handles."""
+        def body(e2):
+            conds = [self.truthy(self.ev(c, e2)) for c in g.ifs]
+            val = self.ev(n.elt, e2)
+            elem = self.infer_elem(val)
+            return (elem, len(conds)), conds + pack(val, elem)
+        saved = (dict(self.names), len(self.pc), set(self.assumptions_used))
+        try:
+            i, ((elem, nc), _), terms = self.for_arbitrary_index(seq, g.target, env, body, "i!flt")
+        except OutOfSubset:
+            self.names = saved[0]
+            del self.pc[saved[1]:]
+            return None
+        cond = z3.And(*terms[:nc]) if nc > 1 else terms[0]
+        elts = terms[nc:]
+        r = self.fresh("filtered", Seq(elem))
+        if len(r.arrs) != len(elts):
+            return None
+        idx = z3.Function(self.fresh_name("idx!flt"), z3.IntSort(), z3.IntSort())
+        pos = z3.Function(self.fresh_name("pos!flt"), z3.IntSort(), z3.IntSort())
+        j, j2 = z3.Int("j!flt"), z3.Int("j2!flt")
+        at = lambda t, k: z3.substitute(t, (i, k))
+        self.assume(z3.And(r.length >= 0, r.length <= seq.length))
+        self.assume(z3.ForAll([j], z3.Implies(z3.And(j >= 0, j < r.length), z3.And(
+            idx(j) >= 0, idx(j) < seq.length, at(cond, idx(j)), pos(idx(j)) == j,
+            *[z3.Select(a, j) == at(t, idx(j)) for a, t in zip(r.arrs, elts)])),
+            patterns=[idx(j), z3.Select(r.arrs[0], j)]))
+        self.assume(z3.ForAll([j, j2], z3.Implies(z3.And(j >= 0, j < j2, j2 < r.length), idx(j) < idx(j2)),
+                              patterns=[z3.MultiPattern(idx(j), idx(j2))]))
+        # alias of the source array: the term itself may contain ite / lambda, which z3 rejects in patterns (matching is modulo equality)
+        src = z3.Const(self.fresh_name("src!flt"), seq.arrs[0].sort())
+        self.assume(src == seq.arrs[0])
+        self.assume(z3.ForAll([i], z3.Implies(z3.And(i >= 0, i < seq.length, cond),
+                                              z3.And(pos(i) >= 0, pos(i) < r.length, idx(pos(i)) == i)), patterns=[pos(i), z3.Select(src, i)]))
+        r.mutable = mutable
+        return r
 
     def for_arbitrary_element(self, st: "VSet", target, env, body, base="x!q"):
         """As for_arbitrary_index, for a comprehension over a symbolic SET: the element expression is evaluated once for an
